@@ -711,6 +711,7 @@ INDEX_PAYLOADS = ['-1', '-0', str(2 ** 63), str(2 ** 64 + 1), str(-2 ** 63 - 1),
 
 VECTORS = [
     # (name, service, weight, touches cache of the layer?)
+    ('dimension_depth_sequence', 'wms', 0, True),
     ('wms_dimension_value', 'wms', 8, True),
     ('wms_dimension_name', 'wms', 5, True),
     ('wms_fi_dimension_value', 'wms_fi', 1, False),
@@ -1028,6 +1029,29 @@ def make_item(n, vector, pclass, layer, rng, variant):
     return {'n': n, 'vector': vector, 'pclass': pclass, 'layer': layer, 'enc': enc, 'info': info, 'reqs': reqs}
 
 
+def depth_sequence_item(n, layer, rng):
+    """benign multi-step sequence: the number of dimension parameters (= directory depth of the tile in file caches) is chosen
+    by the client and differs from request to request, single coloured tiles (symlinks relative to the tile directory)
+    are created at different depths, then everything is read again. Nothing hostile in any single request."""
+    H = WORLD[2]
+    quads = [(-H, 0.0, 0.0, H), (0.0, 0.0, H, H), (-H, -H, 0.0, 0.0), (0.0, -H, H, 0.0)]
+    rng.shuffle(quads)
+    alld = [('TIME', '2020-01-02'), ('ELEVATION', '100'), ('DIM_FOO', 'b'), ('DIM_BAR', '7')]
+    depths = [rng.randint(1, 4), rng.randint(0, 3), 0, rng.randint(0, 4)]
+    if rng.random() < 0.3:
+        depths.reverse()
+    reqs = []
+    for q, k in zip(quads, depths):
+        dims = rng.sample(alld, k)
+        reqs.append({'p': '@@PFX@@/service', 'q': qs(getmap_pairs(layer, dims, BBOX=','.join(repr(v) for v in q)), 'q')})
+    # read path: the same map requests again, then the tiles through the tile services
+    reqs += [dict(r) for r in reqs]
+    for x, y in ((0, 0), (1, 0), (0, 1), (1, 1)):
+        reqs.append({'p': '@@PFX@@/tms/1.0.0/%s/EPSG3857/1/%d/%d.png' % (layer, x, y), 'q': ''})
+    return {'n': n, 'vector': 'dimension_depth_sequence', 'pclass': 'valid', 'layer': layer, 'enc': 'q',
+            'info': {'depths': depths}, 'reqs': reqs}
+
+
 def gen_variant(i):
     return {'fwd': bool(i & 1), 'origin': 'nw' if (i >> 1) & 1 else 'll', 'rest_dims': bool((i >> 2) & 1) or i % 3 == 0,
             'multi': i % 4 == 3}
@@ -1051,6 +1075,11 @@ def gen_items(run, i, variant):
     # two positive controls first
     items.append(make_item(i * 100 + 90, 'wms_dimension_value', 'valid', lys[i % len(lys)], rng, variant))
     items.append(make_item(i * 100 + 91, 'tms_index', 'valid', lys[(i * 7 + 3) % len(lys)], rng, variant))
+    # the client-chosen directory depth, first thing in the life of the cache objects of this case
+    seq_rng = run.rng('depthseq', i)
+    items.insert(0, depth_sequence_item(i * 100 + 92, 'f_link_d0', seq_rng))
+    if i % 2:
+        items.insert(1, depth_sequence_item(i * 100 + 93, seq_rng.choice([l for l in lys if LAYERS[l][0] == 'file']), seq_rng))
     for k in range(ITEMS_PER_CASE):
         n = i * ITEMS_PER_CASE + k
         m = (n * stride) % N
